@@ -97,18 +97,22 @@ CHECKS["C09"] = dict(level="model_checking", ref="DESIGN.md 5 C09", tech=TECH2,
          "(FailedNoEffect), wherever the refused entry stands; TLC enumerates every failing position of every bad "
          "entry kind in the templates of all creating and modifying calls over the reachable populations; every "
          "transition is executed and TLC compares the full object set with all attribute values (API) and the decoded "
-         "directory (no junk files) with the specification after every call.",
-    note="Trusted: TLC, the driver, vf/tokdec.py. Both backends in the thorough tier. Failures caused by file-system "
-         "faults are explored by the C16 machinery.")
+         "directory (no junk files) with the specification after every call. " 
+         "Fault clause: the same exploration with the other judgement: a call that returned an error must leave the token directory as it was (violated on the pinned tree: known finding K09-fault-not-atomic).",
+    note="Trusted: TLC, the driver, vf/tokdec.py. Both backends in the thorough tier. Fault clause: every file operation of "
+         "the listed writing calls fails once (LD_PRELOAD shim, Trace_Crash TFault); a call that returned an error must "
+         "leave the token directory as it was - violated on the pinned tree: known finding K09-fault-not-atomic.")
 CHECKS["C05"] = dict(level="model_checking", ref="DESIGN.md 5 C05", tech=TECH2,
     text="Store.tla relates memory and disk (Durable, NeverReappear, RestartRestores); TLC enumerates histories of "
          "create/copy/set/destroy/restart; every transition is executed on the file and the SQLite backend and after "
          "every call the acting library, a NEW PROCESS and the independent decoder must show the specification's "
          "state; session-object lifetime is replayed on P11Core; golden fixtures written by the pinned version are "
-         "opened by the current library and TLC (Trace_Fixture) demands the recorded state.",
+         "opened by the current library and TLC (Trace_Fixture) demands the recorded state. " 
+         "Fault clause: every file operation of the listed writing calls is made to fail once (LD_PRELOAD shim; a failed flush loses the buffered data), the call goes on and a fresh process must see the new state whenever the call returned CKR_OK (Trace_Crash TFault).",
     note="Trusted: TLC, the driver, vf/tokdec.py, the fixtures (written once by the pinned build incl. a 300 kB value). "
          "Power loss is out of scope (no fsync in the code); durable = visible to a new process. Quick tier samples the "
-         "walks of the bounded graph (exhaustive = false), thorough covers it.")
+         "walks of the bounded graph (exhaustive = false), thorough covers it. Fault clause: every file operation of the listed writing calls fails once (a failed flush loses the data); a "
+         "call that returned CKR_OK must have persisted its effect (fix 044cdb8 recorded).")
 CHECKS["C06"] = dict(level="model_checking", ref="DESIGN.md 5 C06", tech=TECH2,
     text="Store.tla fixes the storage form of every slot (PrivateBytesEncrypted); every storing path is executed and "
          "the independent decoder (own parser, PBE via hashlib, AES via libcrypto EVP) reads the directory with the "
